@@ -200,7 +200,12 @@ func randomResponse(rng *rand.Rand, final bool) []respPkg {
 		case 3:
 			r = append(r, rEnv([3]string{"\x01", "db" + strconv.Itoa(rng.Intn(9)), "master"}))
 		case 4:
-			r = append(r, rEnv([3]string{"\x04", strconv.Itoa(512 * (1 + rng.Intn(8))), "512"}, [3]string{"\x03", "utf8", ""}))
+			// valid sizes incl. the boundaries, and (1 in 6) sizes the library must reject: 0, 8, 65536, not a number
+			sz := strconv.Itoa(packSizes[rng.Intn(len(packSizes))])
+			if rng.Intn(6) == 0 {
+				sz = []string{"0", "8", "65536", "-512", "1k", ""}[rng.Intn(6)]
+			}
+			r = append(r, rEnv([3]string{"\x04", sz, "512"}, [3]string{"\x03", "utf8", ""}))
 		case 5:
 			r = append(r, rDone([]int{1, 17, 0x11, 9, 3}[rng.Intn(5)], rng.Intn(50)))
 		case 6:
